@@ -92,6 +92,13 @@ pub struct NetCfg {
     /// is lost: queued datagrams stay queued). Stateless like yield_ppm; stays on in explicit replays.
     #[serde(default)]
     pub recv_err_ppm: u32,
+    /// slow worker task: a send_to made by a task of the node that never calls recv_from (i.e. not
+    /// the event loop: the bootstrap worker) returns late - the datagram has left, the caller gets
+    /// the CPU back only up to worker_stall_max_ms later. Stateless like yield_ppm.
+    #[serde(default)]
+    pub worker_stall_ppm: u32,
+    #[serde(default)]
+    pub worker_stall_max_ms: Ms,
 }
 
 impl NetCfg {
@@ -139,6 +146,8 @@ struct Mailbox {
     kind: EpKind,
     recv_errs: u32,
     recv_calls: u64,
+    /// tokio task ids that have called recv_from on this socket (the node's event loop)
+    recv_tasks: Vec<String>,
 }
 
 struct InFlight {
@@ -612,7 +621,7 @@ impl Net {
         n.dead.remove(&addr);
         n.mailboxes.insert(
             addr,
-            Mailbox { q: VecDeque::new(), wakers: Vec::new(), kind: EpKind::Real, recv_errs: 0, recv_calls: 0 },
+            Mailbox { q: VecDeque::new(), wakers: Vec::new(), kind: EpKind::Real, recv_errs: 0, recv_calls: 0, recv_tasks: Vec::new() },
         );
         SimSocket { net: self.clone(), addr }
     }
@@ -625,6 +634,7 @@ impl Net {
             kind: EpKind::Probe,
             recv_errs: 0,
             recv_calls: 0,
+            recv_tasks: Vec::new(),
         });
         ProbeSocket { net: self.clone(), addr }
     }
@@ -789,6 +799,26 @@ impl btdht::SocketTrait for SimSocket {
         if check {
             crate::tablemon::check_shape(&self.net, &self.addr);
         }
+        let late = {
+            let mut n = self.net.lock();
+            let ppm = n.cfg.worker_stall_ppm;
+            if ppm == 0 {
+                0
+            } else {
+                let me = tokio::task::try_id().map(|i| i.to_string()).unwrap_or_default();
+                let is_loop = n.mailboxes.get(&self.addr).map(|m| m.recv_tasks.contains(&me)).unwrap_or(true);
+                let ord = n.link_ord.get(&(self.addr, *target)).copied().unwrap_or(0);
+                if !is_loop && n.roll(&self.addr, target, ord, 24) % PPM < ppm as u64 {
+                    n.bump("fault_worker_stall");
+                    1 + n.roll(&self.addr, target, ord, 25) % n.cfg.worker_stall_max_ms.max(1)
+                } else {
+                    0
+                }
+            }
+        };
+        if late > 0 {
+            tokio::time::sleep(Duration::from_millis(late)).await;
+        }
         r
     }
 
@@ -796,9 +826,13 @@ impl btdht::SocketTrait for SimSocket {
         let jitter = {
             let mut n = self.net.lock();
             let ppm = n.cfg.yield_ppm;
+            let me = tokio::task::try_id().map(|i| i.to_string()).unwrap_or_default();
             let calls = match n.mailboxes.get_mut(&self.addr) {
                 Some(m) => {
                     m.recv_calls += 1;
+                    if !m.recv_tasks.contains(&me) {
+                        m.recv_tasks.push(me);
+                    }
                     m.recv_calls
                 }
                 None => 0,
